@@ -43,7 +43,7 @@ VClasses(f) ==
     \* name_both: a name that is a user and a group with different ids on this machine (root when there is none)
     IF f \in UidFields THEN { "zero", "small", "max31", "high", "unset", "minus1", "name_root", "name_both", "overflow" }
     ELSE IF f \in GidFields THEN { "zero", "small", "max31", "high", "unset", "minus1", "name_root", "name_both", "overflow" }
-    ELSE IF f \in StrFields THEN { "short", "long", "max", "special", "utf8" }
+    ELSE IF f \in StrFields THEN { "short", "long", "max", "special", "utf8", "edges" }
     ELSE IF f = "saddr_fam" THEN { "two", "ten" }
     ELSE IF f \in NumFields THEN { "zero", "one", "dec", "hex", "neg", "max", "overflow" }
     ELSE IF f = "exit" THEN { "zero", "pos", "neg", "errno_neg", "errno_pos", "min", "overflow" }
